@@ -85,7 +85,7 @@ T_Sound == on /\ V(cse) => Holds(cse.S, cse.q) /\ cse.q.h \in cse.cl.roots /\ cs
 \* never with an altered proof, a proof for another key, or a proof for another root
 T_OnlyIntactProofs ==
   on /\ V(cse) => /\ cse.pf.at = cse.q.h /\ KeyOf(cse.pf) = KeyOf(cse.q)
-                  /\ cse.pf.variant \notin {"otherStore", "truncated", "valueSwapped", "empty", "garbage"}
+                  /\ cse.pf.variant \notin {"otherStore", "truncated", "valueSwapped", "empty", "garbage", "shadowKey"}
                   /\ (cse.cl.type = "tm" => cse.pf.variant # "reordered")
 
 \* monotone in the delay: what verifies with delay d verifies with every smaller delay
